@@ -6,6 +6,23 @@ import struct
 OPS = [("eq", "="), ("ne", "<>"), ("lt", "<"), ("le", "<="), ("gt", ">"), ("ge", ">=")]
 
 
+MIRROR = {"eq": "eq", "ne": "ne", "lt": "gt", "le": "ge", "gt": "lt", "ge": "le"}
+
+
+class Names(list):
+    """column names of one table, with the table's name for qualified references"""
+    def __init__(self, names, tab):
+        list.__init__(self, names)
+        self.tab = tab
+
+
+def flip_some(rng, p, prob=0.15):
+    for l in p.leaves():
+        if rng.random() < prob:
+            l.flip = True
+    return p
+
+
 def f32_bits(x):
     return struct.unpack("<I", struct.pack("<f", x))[0]
 
@@ -49,7 +66,13 @@ class Cmp:
     def __init__(self, col, op, val):
         self.col, self.op, self.val = col, op, val
 
+    flip = False     # written constant-first: "<literal> <mirrored op> <table>.<column>" (the front end resolves a column on the
+                     # right-hand side of a comparison only when it is qualified with its table)
+
     def sql(self, names):
+        tab = getattr(names, "tab", None)
+        if self.flip and tab:
+            return "%s %s %s.%s" % (self.val.sql(), dict(OPS)[MIRROR[self.op]], tab, names[self.col])
         return "%s %s %s" % (names[self.col], dict(OPS)[self.op], self.val.sql())
 
     def rpn(self, off=0):
